@@ -87,6 +87,7 @@ impl NotificationEventHandle {
         peer: PeerId,
         handshake: Vec<u8>,
         sink: NotificationSink,
+        stream: u64,
     ) {
         let _ = self
             .tx
@@ -97,6 +98,7 @@ impl NotificationEventHandle {
                 peer,
                 handshake,
                 sink,
+                stream,
             })
             .await;
     }
@@ -174,13 +176,16 @@ pub struct NotificationHandle {
     event_rx: Receiver<InnerNotificationEvent>,
 
     /// RX channel for receiving notifications from connection handlers.
-    notif_rx: Receiver<(PeerId, BytesMut)>,
+    notif_rx: Receiver<(PeerId, u64, BytesMut)>,
 
     /// TX channel for sending commands to the notification protocol.
     command_tx: Sender<NotificationCommand>,
 
     /// Peers.
     peers: HashMap<PeerId, NotificationSink>,
+
+    /// Identifier of the stream currently open to each peer.
+    streams: HashMap<PeerId, u64>,
 
     /// Clogged peers.
     clogged: HashSet<PeerId>,
@@ -199,7 +204,7 @@ impl NotificationHandle {
     /// Create new [`NotificationHandle`].
     pub(crate) fn new(
         event_rx: Receiver<InnerNotificationEvent>,
-        notif_rx: Receiver<(PeerId, BytesMut)>,
+        notif_rx: Receiver<(PeerId, u64, BytesMut)>,
         command_tx: Sender<NotificationCommand>,
         handshake: Arc<RwLock<Vec<u8>>>,
         protocol_name: ProtocolName,
@@ -210,6 +215,7 @@ impl NotificationHandle {
             command_tx,
             handshake,
             peers: HashMap::new(),
+            streams: HashMap::new(),
             clogged: HashSet::new(),
             pending_validations: HashMap::new(),
             protocol_name,
@@ -482,8 +488,10 @@ impl Stream for NotificationHandle {
                         peer,
                         handshake,
                         sink,
+                        stream,
                     } => {
                         self.peers.insert(peer, sink);
+                        self.streams.insert(peer, stream);
 
                         return Poll::Ready(Some(NotificationEvent::NotificationStreamOpened {
                             protocol,
@@ -495,6 +503,7 @@ impl Stream for NotificationHandle {
                     }
                     InnerNotificationEvent::NotificationStreamClosed { peer } => {
                         self.peers.remove(&peer);
+                        self.streams.remove(&peer);
                         self.clogged.remove(&peer);
 
                         return Poll::Ready(Some(NotificationEvent::NotificationStreamClosed {
@@ -527,8 +536,12 @@ impl Stream for NotificationHandle {
 
             match futures::ready!(self.notif_rx.poll_recv(cx)) {
                 None => return Poll::Ready(None),
-                Some((peer, notification)) => {
-                    if self.peers.contains_key(&peer) {
+                Some((peer, stream, notification)) => {
+                    // A notification that arrived on a stream which has been closed in the
+                    // meantime is discarded, also when a new stream to the peer is already open:
+                    // handing it out under the new stream would deliver the tail of the old
+                    // stream's backlog after its head has been dropped.
+                    if self.peers.contains_key(&peer) && self.streams.get(&peer) == Some(&stream) {
                         return Poll::Ready(Some(NotificationEvent::NotificationReceived {
                             peer,
                             notification,
